@@ -95,6 +95,31 @@ def judge(res, cfg, d, err, case, sched_choices=None):
     if late_nan:
         res.fail(site="launch_sim", clause="no_nan_in_history", cls=tag, detail=info, sub=case["sub"], case=case)
         return
+    # the readings published inside the running loop have the configured magnitudes and rotate with the true attitude: logger rows whose
+    # sensor message carries the same time stamp as the logged true attitude are compared with the reference sensor model
+    ta, tm, ti = d["sim_attitude"]["time"], d["mag"]["time"], d["imu"]["time"]
+    Bn = ref.Rz(cfg["decl"]) @ ref.Ry(-cfg["incl"]) @ np.array([0.1, 0, 0])
+    nm_ = ni_ = 0
+    worst_m = worst_a = 0.0
+    for k in range(first, len(t)):
+        if not np.isfinite(ta[k]):
+            continue
+        Rk = None
+        if np.isfinite(tm[k]) and abs(tm[k] - ta[k]) < 1e-9:
+            Rk = ref.R_from_quat(qs[k])
+            worst_m = max(worst_m, float(np.max(np.abs(np.asarray(d["mag"]["mag"][k]).reshape(-1) - Rk.T @ Bn))) / 0.1)
+            nm_ += 1
+        if np.isfinite(ti[k]) and abs(ti[k] - ta[k]) < 1e-9:
+            Rk = ref.R_from_quat(qs[k]) if Rk is None else Rk
+            worst_a = max(worst_a, float(np.max(np.abs(np.asarray(d["imu"]["accel"][k]).reshape(-1) - Rk.T @ np.array([0, 0, -9.8])))) / 9.8)
+            ni_ += 1
+    if nm_ < 10 or ni_ < 10:
+        raise core.HarnessError("C12: fewer than 10 logger rows with time-aligned sensor and attitude messages (%d mag, %d imu)" % (nm_, ni_))
+    res.count("aligned_sensor_rows", nm_ + ni_)
+    if worst_m > 1e-6:
+        res.fail(site="launch_sim", clause="magnetometer_in_loop_is_configured_field_rotated_by_true_attitude", cls=tag, detail=dict(info, worst_relative_error=worst_m, rows=nm_), sub=case["sub"], case=case)
+    if worst_a > 1e-6:
+        res.fail(site="launch_sim", clause="accelerometer_in_loop_is_gravity_rotated_by_true_attitude", cls=tag, detail=dict(info, worst_relative_error=worst_a, rows=ni_), sub=case["sub"], case=case)
     m = t >= 10.0
     ATT_TOL, BIAS_TOL = TOL[cfg["rates"]]
     big = max(abs(v) for v in cfg["x0"][:3]) > 0.3 and not cfg["initialize"]
@@ -298,7 +323,7 @@ def explore_history_independence(case):
     A = dict(x0=[0.0, 0.0, 0.0, 0.0, 0.0, 0.0], initialize=False, decl=0.3, incl=1.0, rates="slow", tf=0.5)
     L = launch()
 
-    def minimal(cfg):
+    def build(cfg):
         # only the keys that differ from the defaults are passed, as a user would
         p = {"tf": cfg["tf"], "initialize": cfg["initialize"], "estimators": ["mrp"], "x0": np.array(cfg["x0"], dtype=float), "params": {"sim/enable_noise": False}}
         if cfg["incl"]:
@@ -306,12 +331,25 @@ def explore_history_independence(case):
         if cfg["decl"]:
             p["params"].update({"sim/mag_decl": cfg["decl"], "mrp/mag_decl": cfg["decl"]})
         p["params"].update(RATES[cfg["rates"]])
+        return p
+
+    def minimal(cfg):
         with contextlib.redirect_stdout(io.StringIO()):
-            return L.launch_sim(p)
+            return L.launch_sim(build(cfg))
+
+    def flat(p):
+        return repr(sorted((k, (sorted(v.items()) if isinstance(v, dict) else (np.asarray(v).tolist() if isinstance(v, np.ndarray) else v))) for k, v in p.items()))
     try:
         d1 = minimal(B)
         minimal(A)
         d2 = minimal(B)
+        # the caller keeps its configuration object and passes it again (e.g. an initialize True / False sweep)
+        pB = build(B)
+        before = flat(pB)
+        with contextlib.redirect_stdout(io.StringIO()):
+            d3 = L.launch_sim(pB)
+            after = flat(pB)
+            d4 = L.launch_sim(pB)
     except Exception as ex:
         res.count("evaluations")
         res.fail(site="launch_sim", clause="no_exception", cls="history", detail=dict(error="%s: %s" % (type(ex).__name__, str(ex)[:300])), sub="history", case=case)
@@ -327,6 +365,16 @@ def explore_history_independence(case):
         res.fail(site="launch_sim", clause="run_depends_only_on_its_own_parameters", cls="history",
                  detail=dict(first_rows=int(len(d1)), again_rows=int(len(d2)), mag0=np.asarray(d1["mag"]["mag"][1]).tolist(), mag0_again=np.asarray(d2["mag"]["mag"][1]).tolist()),
                  sub="history", case=case)
+    def same_runs(a, b):
+        return len(a) == len(b) and all(np.array_equal(np.nan_to_num(np.asarray(a[k][f]), nan=-777.0), np.nan_to_num(np.asarray(b[k][f]), nan=-777.0))
+                                        for k in ("sim_attitude", "mrp_attitude", "imu", "mag") for f in a[k].dtype.names)
+    res.count("evaluations", 2)
+    if before != after:
+        res.fail(site="launch_sim", clause="arguments_not_mutated", cls="history", detail=dict(before=before[:400], after=after[:400]), sub="history", case=case)
+    if not same_runs(d3, d1) or not same_runs(d4, d1):
+        res.fail(site="launch_sim", clause="run_depends_only_on_its_own_parameters", cls="same_configuration_object_again",
+                 detail=dict(first_equals_reference=bool(same_runs(d3, d1)), second_equals_reference=bool(same_runs(d4, d1)),
+                             mag1=np.asarray(d1["mag"]["mag"][1]).tolist(), mag1_second_call=np.asarray(d4["mag"]["mag"][1]).tolist()), sub="history", case=case)
     res.samples.append(dict(history_independence=True))
     return res
 
